@@ -175,7 +175,7 @@ class FixedExtensionHeader (ExtensionHeader):
     """
     Unpacks a new instance of this class from a buffer
     """
-    if max_length is not None and (max_length - offset) < cls.LENGTH:
+    if max_length is not None and max_length < cls.LENGTH:
       raise TruncatedException()
 
     nh = struct.unpack_from("!B", raw, offset)[0]
@@ -233,7 +233,7 @@ class DummyFixedExtensionHeader (FixedExtensionHeader):
   Just saves the raw body data
   """
   def _init (self, *args, **kw):
-    self.raw_body = '\x00' * (self.LENGTH - 1)
+    self.raw_body = b'\x00' * (self.LENGTH - 1)
   def _pack_body (self):
     return self.raw_body
   @classmethod
@@ -357,8 +357,9 @@ class ipv6 (packet_base):
           self.msg('(ipv6) warning, packet data incomplete')
           return
         try:
-          offset,o = c.unpack_new(raw, offset, max_length = length)
-          length -= len(o)
+          new_offset,o = c.unpack_new(raw, offset, max_length = length)
+          length -= new_offset - offset
+          offset = new_offset
         except TruncatedException:
           self.msg('(ipv6) warning, packet data truncated')
           return
@@ -415,10 +416,13 @@ class ipv6 (packet_base):
     else:
       self.payload_length = len(payload)
 
+    ehs = b''.join(eh.pack() for eh in self.extension_headers)
+    self.payload_length += len(ehs)
 
     r = struct.pack("!IHBB", vtcfl, self.payload_length, nht, self.hop_limit)
     r += self.srcip.raw
     r += self.dstip.raw
+    r += ehs
 
     return r
 
